@@ -143,8 +143,9 @@ def gene_to_feature(
             exists.
     """
     location = gene_or_feature.chunk_relative_location.to_biopython()
-    # update the strand by picking the most common
-    strands = [child.strand for child in gene_or_feature]
+    # update the strand by picking the most common; the locations written are chunk-relative, so is their strand (a sequence chunk
+    # may be the reverse complement of its chromosome window)
+    strands = [child.chunk_relative_strand for child in gene_or_feature]
     strand = max(strands, key=strands.count)
 
     qualifiers = {key: list(vals) for key, vals in gene_or_feature.export_qualifiers().items()}
